@@ -378,6 +378,21 @@ pub fn signed_attrs_input(attrs: &[Vec<u8>]) -> Vec<u8> {
 
 /// ContentInfo { signedData, [0] SignedData }
 pub fn encode_cms(s: &CmsSpec, signature: &[u8], sort_attrs: bool) -> Vec<u8> {
+    encode_cms_with(s, signature, sort_attrs, der::octets(&s.content))
+}
+
+/// A BER (not DER) OCTET STRING in the constructed form: the content cut into the given segment lengths
+/// (what is left goes into a last segment).
+pub fn octets_segmented(content: &[u8], cuts: &[usize]) -> Vec<u8> {
+    let mut parts = Vec::new();
+    let mut at = 0;
+    for c in cuts { let e = (at + c).min(content.len()); parts.push(der::octets(&content[at..e])); at = e; }
+    parts.push(der::octets(&content[at..]));
+    der::tlv(0x24, &der::cat(&parts))
+}
+
+/// the same with the eContent OCTET STRING given as already encoded octets
+pub fn encode_cms_with(s: &CmsSpec, signature: &[u8], sort_attrs: bool, econtent: Vec<u8>) -> Vec<u8> {
     let attrs_content = if sort_attrs {
         let set = der::set_of(&s.attrs);
         let (h, n) = der::split_tlv(&set).unwrap();
@@ -396,7 +411,7 @@ pub fn encode_cms(s: &CmsSpec, signature: &[u8], sort_attrs: bool) -> Vec<u8> {
     let mut sd = vec![
         der::uint_u64(s.version),
         der::set_raw(&[der::seq(&[der::oid(SHA256)])]),
-        der::seq(&[der::oid(&s.content_type), der::ctx(0, true, &der::octets(&s.content))]),
+        der::seq(&[der::oid(&s.content_type), der::ctx(0, true, &econtent)]),
         der::ctx(0, true, &s.cert),
     ];
     if let Some(crl) = &s.crl {
